@@ -18,7 +18,7 @@ import numpy as np
 from .. import core
 
 TOL = 1e-12
-ALL_FAMILIES = ['reject', 'rejnum', 'interp1', 'interpnd', 'aesth', 'median', 'median2', 'sky', 'skywide']
+ALL_FAMILIES = ['reject', 'rejnum', 'interp1', 'interpnd', 'aesth', 'median', 'median2', 'sky', 'skywide', 'skytop']
 
 
 # ----------------------------------------------------------------------------------------------
@@ -93,9 +93,15 @@ SFORMS = ['py', 'np', '0d', 'u1']       # ('i1': numpy.int8, used for the wide s
 VARIANTS = LAYOUTS       # (kept: the layouts used for pairs of calls)
 
 
+#   MASKVALUE   the non-zero value that marks a good point (djs_reject: "bad points are marked with a value that evaluates to
+#               False") / a masked sample (djs_maskinterp: non-zero) in an integer mask: 'one' 1; 'two' 2; 'top' only the
+#               top bit of the dtype (the most negative value of a signed type); 'neg1' all bits (-1); 'mix' rotating
+MVALS = ['one', 'top', 'two', 'neg1', 'mix']
+
+
 def vp(v):
     parts = (v or 'C').split('.')
-    return parts + ['C', 'f8', 'bool', 'py'][len(parts):]
+    return parts + ['C', 'f8', 'bool', 'py', 'one'][len(parts):]
 
 
 def lay(a, v):
@@ -134,10 +140,17 @@ def arr(a, v):
 
 
 def marr(mask, v, base=None):
-    """a boolean mask as the variant's mask dtype (values 0 / 1)."""
-    t = vp(v)[2]
+    """a boolean mask as the variant's mask dtype: 0 where False, the variant's non-zero value where True."""
+    t, mv = vp(v)[2], vp(v)[4]
     m = np.asarray(mask)
-    return lay(m if t == 'bool' else m.astype(t), v)
+    if t == 'bool':
+        return lay(m, v)
+    info = np.iinfo(np.dtype(t))
+    top = info.min if info.min < 0 else (info.max // 2 + 1)
+    neg1 = -1 if info.min < 0 else info.max
+    vals = {'one': [1], 'two': [2], 'top': [top], 'neg1': [neg1], 'mix': [top, 1, 2, neg1, info.max, 6]}[mv]
+    fill = np.array([vals[k % len(vals)] for k in range(m.size)], dtype=t).reshape(m.shape)
+    return lay(np.where(m, fill, np.zeros((), dtype=t)).astype(t), v)
 
 
 def sc0(x, v, kind=float):
@@ -159,11 +172,11 @@ def variant_of(ctx_seed, c):
     """Rotate the variants over the cases, by seed (deterministic in the case's content)."""
     import zlib
     h = zlib.crc32(repr(sorted((k, repr(x)) for k, x in c.items())).encode()) + ctx_seed
-    return '.'.join([LAYOUTS[h % 5], TYPES[(h // 5) % 6], MASKTYPES[(h // 30) % 9], SFORMS[(h // 270) % 4]])
+    return '.'.join([LAYOUTS[h % 5], TYPES[(h // 5) % 6], MASKTYPES[(h // 30) % 9], SFORMS[(h // 270) % 4], MVALS[(h // 1080) % 5]])
 
 
 def random_variant(rng):
-    return '.'.join([rng.choice(LAYOUTS), rng.choice(TYPES), rng.choice(MASKTYPES), rng.choice(SFORMS)])
+    return '.'.join([rng.choice(LAYOUTS), rng.choice(TYPES), rng.choice(MASKTYPES), rng.choice(SFORMS), rng.choice(MVALS)])
 
 
 def exc_name(ex):
@@ -262,6 +275,8 @@ def int_finding(how, obs_exc='', kind='reject'):
     """D-C17-3: djs_reject with integer-typed arguments (in-place float into an integer work array, unsigned differences /
     negated unsigned limits wrap).  D-C17-4: djs_maskinterp truncates interpolated values of integer N-d images."""
     parts = vp(how)
+    if kind == 'reject' and parts[2] != 'bool' and parts[4] != 'one' and not obs_exc:
+        return 'D-C17-6'       # a good point marked by a non-zero value other than 1 (tested bitwise)
     if kind == 'reject':
         if obs_exc.startswith('UFuncTypeError') or obs_exc.startswith('OverflowError'):
             return 'D-C17-3'
@@ -400,7 +415,8 @@ def median_judge(exp, obs):
 # ----------------------------------------------------------------------------------------------
 # skymask
 # ----------------------------------------------------------------------------------------------
-SKY_DTYPES = [('int16', 14), ('int32', 30), ('int64', 62), ('uint64', 63)]
+# (dtype, highest bit it holds): the sign bit of the signed types included (negative mask values)
+SKY_DTYPES = [('int16', 15), ('int32', 31), ('int64', 63), ('uint64', 63)]
 _PAR_HEAD = '''#
 # SPPIXMASK table generated by the C17 check
 #
@@ -436,7 +452,7 @@ def sky_table(ctx, tbl):
     return _tables[key]
 
 
-SKY_EXTRA = {'i1': ('int8', 6), 'u1': ('uint8', 7), 'u2': ('uint16', 15), 'u4': ('uint32', 31)}
+SKY_EXTRA = {'i1': ('int8', 7), 'u1': ('uint8', 7), 'u2': ('uint16', 15), 'u4': ('uint32', 31)}
 
 
 def sky_dtypes(flags, v=None):
@@ -516,16 +532,21 @@ def run_case(ctx, c, exp, idx=0, deferred=None, lv=None):
                 why = reject_judge(c, exp, obs)
                 if why == 'defer':
                     if deferred is not None:
-                        deferred.append((c, exp, conv, reject_record(c, obs, conv)))
+                        deferred.append((c, exp, conv + ('/None-masks' if use_none else '') + '@' + lv, reject_record(c, obs, conv)))
                     why = ''
-                res.append((conv + ('/None-masks' if use_none else '') + '@' + lv, why, obs,
-                            reject_classify(c, exp, obs, lv) if why else None))
+                finding = reject_classify(c, exp, obs, lv) if why else None
+                if finding in ('D-C17-3', 'D-C17-6') and reject_judge(c, exp, reject_call(c, conv, use_none, 'C')) not in ('', 'defer'):
+                    finding = None      # the plain float64 / bool hand-over fails too: not explained by the variant
+                res.append((conv + ('/None-masks' if use_none else '') + '@' + lv, why, obs, finding))
     elif kind in ('interp1', 'interpnd'):
         variants = ['nd-bool', 'nd-int'] if kind == 'interpnd' else ['interp1-int', 'interp1-bool', 'nd-int']
         for v in variants:
             obs = interp_call(c, v, lv)
             why = interp_judge(c, exp, obs)
-            res.append((v + '@' + lv, why, obs, int_finding(lv, kind='interp') if (why and kind == 'interpnd') else None))
+            finding = int_finding(lv, kind='interp') if (why and kind == 'interpnd') else None
+            if finding and interp_judge(c, exp, interp_call(c, v, 'C')):
+                finding = None
+            res.append((v + '@' + lv, why, obs, finding))
     elif kind == 'aesth':
         obs = aes_call(c, lv)
         res.append(('float64@' + lv, aes_judge(c, exp, obs), obs, None))
@@ -888,7 +909,7 @@ def rec_layout(ctx, rng):
     choices = ['F', 'F', 'strided', 'ro', 'swap'] if rank >= 2 else ['strided', 'ro', 'swap']
     if fn == 'median' and rank == 1:
         choices = ['strided', 'ro']
-    la, lb = 'C', '.'.join([rng.choice(choices), rng.choice(TYPES), rng.choice(MASKTYPES), rng.choice(SFORMS)])
+    la, lb = 'C', '.'.join([rng.choice(choices), rng.choice(TYPES), rng.choice(MASKTYPES), rng.choice(SFORMS), rng.choice(MVALS)])
     return {'kind': 'layout', 'fn': fn, 'la': la, 'lb': lb, 'args': args,
             'a': layout_exec(ctx, fn, args, la), 'b': layout_exec(ctx, fn, args, lb)}
 
@@ -933,7 +954,7 @@ def rec_rejnd(rng):
             'inmask': rng.random() < 0.5}
     grow = rng.randint(0, 3)
     la = rng.choice(['C', 'ro'])
-    lb = '.'.join([rng.choice(['F', 'F', 'F', 'strided', 'swap']), rng.choice(TYPES), rng.choice(MASKTYPES), rng.choice(SFORMS)])
+    lb = '.'.join([rng.choice(['F', 'F', 'F', 'strided', 'swap']), rng.choice(TYPES), rng.choice(MASKTYPES), rng.choice(SFORMS), rng.choice(MVALS)])
     r0 = rejnd_exec(args, 0, 'C')
     return {'kind': 'rejnd', 'shape': shape, 'grow': grow, 'rej0': r0['out'], 'err0': r0['err'], 'la': la, 'lb': lb, 'args': args,
             'a': rejnd_exec(args, grow, la), 'b': rejnd_exec(args, grow, lb)}
@@ -1014,11 +1035,11 @@ def rec_nontrivial(r):
 
 def rec_classify(r, why=''):
     if r['kind'] == 'reject' and int_finding(r.get('how'), r.get('exc', '')):
-        return 'D-C17-3'
+        return int_finding(r.get('how'), r.get('exc', ''))
     if r['kind'] == 'interp' and len(r['shape']) > 1 and int_finding(r.get('how'), kind='interp') and 'masked sample' in why:
         return 'D-C17-4'
     if r['kind'] == 'rejnd' and int_finding(r['lb'], r['b'].get('exc', '')):
-        return 'D-C17-3'
+        return int_finding(r['lb'], r['b'].get('exc', ''))
     if r['kind'] == 'layout' and r['fn'] == 'interp' and len(r['args']['shape']) > 1 and int_finding(r['lb'], kind='interp'):
         return 'D-C17-4'
     if r['kind'] == 'reject' and r['err'] and r['grow'] >= 2 and r['exc'].startswith('IndexError'):
@@ -1068,9 +1089,12 @@ def run(ctx):
         'Python numbers, numpy scalars (incl. uint8) and 0-d arrays, rotated by seed; expected values unchanged',
         'aesthetics with integer-typed flux and method mean: only WHERE flux changes is asserted (the result keeps the flux dtype, '
         'the fill is the truncated mean; the statement does not fix the fill value)',
+        'mask values: a good point of djs_reject (a masked sample of djs_maskinterp) is any non-zero value - 1, 2, only the top '
+        '(sign) bit of the dtype, -1 - in every integer width; skymask mask values with the top bit of their own dtype set '
+        '(negative values of int8/int16/int32/int64), alone, with other bits, with the flag bits, and -1',
         'not in the statement: maxrej / groupsize / groupdim of djs_reject (maxrej is silently without effect when groupdim is not given)']
     rep = Reporter(ctx)
-    groups = [['rejnum', 'interp1', 'interpnd', 'aesth', 'median', 'median2', 'sky', 'skywide'], ['reject']]
+    groups = [['rejnum', 'interp1', 'interpnd', 'aesth', 'median', 'median2', 'sky', 'skywide', 'skytop'], ['reject']]
     if ctx.quick:
         groups = [ALL_FAMILIES]
     idx = 0
@@ -1111,9 +1135,13 @@ def run(ctx):
         bad = core.validate_records(ctx, 'Trace_Reject', recs, label='Trace_Reject(deferred)')
         for k in sorted(bad):
             c, exp, conv, rec = deferred[k]
-            rep.report('reject deferred ' + bad[k], {'what': 'reject [%s] %s; call %s' % (conv, bad[k], brief(c)),
-                                                     'kind': c['kind'], 'call': c, 'conv': conv, 'expected': exp,
-                                                     'record': rec})
+            base, how = conv.split('@')[0], conv.split('@')[1]
+            finding = int_finding(how)
+            if finding and reject_judge(c, exp, reject_call(c, base.split('/')[0], base.endswith('None-masks'), 'C')) not in ('', 'defer'):
+                finding = None
+            rep.report('reject deferred ' + (finding or bad[k]), {'what': 'reject [%s] %s; call %s' % (conv, bad[k], brief(c)),
+                                                                  'kind': c['kind'], 'call': c, 'conv': conv, 'expected': exp,
+                                                                  'record': rec}, finding=finding)
     # ---- code -> spec ------------------------------------------------------------------------
     rng = random.Random(ctx.seed)
     scale = 1 if ctx.quick else 8
